@@ -65,6 +65,18 @@ func cmpInt64(a, b int64) int {
 	return 0
 }
 
+// cmpUint64Int64 is the three-way order of a uint64 and an int64 by their
+// mathematical values: a negative int64 is below every uint64.
+func cmpUint64Int64(u uint64, i int64) int {
+	if i < 0 || u > uint64(i) {
+		return 1
+	}
+	if u < uint64(i) {
+		return -1
+	}
+	return 0
+}
+
 func compareFloat(f *SexpFloat, expr Sexp) (int, error) {
 	switch e := expr.(type) {
 	case *SexpInt:
@@ -89,6 +101,11 @@ func compareFloat(f *SexpFloat, expr Sexp) (int, error) {
 			return 2, nil
 		}
 		return signumFloat(f.Val - float64(e.Val)), nil
+	case *SexpUint64:
+		if math.IsNaN(f.Val) {
+			return 2, nil
+		}
+		return signumFloat(f.Val - float64(e.Val)), nil
 	}
 	errmsg := fmt.Sprintf("err 91: cannot compare %T to %T", f, expr)
 	return 0, errors.New(errmsg)
@@ -105,6 +122,8 @@ func compareInt(i *SexpInt, expr Sexp) (int, error) {
 		return signumFloat(float64(i.Val) - e.Val), nil
 	case *SexpChar:
 		return cmpInt64(i.Val, int64(e.Val)), nil
+	case *SexpUint64:
+		return -cmpUint64Int64(e.Val, i.Val), nil
 	case *SexpReflect:
 		r := reflect.Value(e.Val)
 		ifa := r.Interface()
@@ -133,6 +152,8 @@ func compareChar(c *SexpChar, expr Sexp) (int, error) {
 		return signumFloat(float64(c.Val) - e.Val), nil
 	case *SexpChar:
 		return signumInt(int64(c.Val) - int64(e.Val)), nil
+	case *SexpUint64:
+		return -cmpUint64Int64(e.Val, int64(c.Val)), nil
 	}
 	errmsg := fmt.Sprintf("err 93: cannot compare %T to %T", c, expr)
 	return 0, errors.New(errmsg)
@@ -326,7 +347,8 @@ func (env *Zlisp) Compare(a Sexp, b Sexp) (int, error) {
 	return 0, errors.New(errmsg)
 }
 
-// only compare uint64 to uint64
+// a uint64 compares with a uint64, an int and a char by value, and with a
+// float after conversion to float64, as in arithmetic
 func compareUint64(i *SexpUint64, expr Sexp) (int, error) {
 	switch e := expr.(type) {
 	case *SexpUint64:
@@ -337,6 +359,15 @@ func compareUint64(i *SexpUint64, expr Sexp) (int, error) {
 			return 1, nil
 		}
 		return 0, nil
+	case *SexpInt:
+		return cmpUint64Int64(i.Val, e.Val), nil
+	case *SexpChar:
+		return cmpUint64Int64(i.Val, int64(e.Val)), nil
+	case *SexpFloat:
+		if math.IsNaN(e.Val) {
+			return 2, nil
+		}
+		return signumFloat(float64(i.Val) - e.Val), nil
 	}
 	errmsg := fmt.Sprintf("err 101: cannot compare %T to %T", i, expr)
 	return 0, errors.New(errmsg)
